@@ -163,6 +163,24 @@ func (c *c05) runCfg(dc DomCase, cf domCfg) {
 			st, b := marshal(root)
 			c.out.Emit(map[string]interface{}{"ev": "Marshal", "st": st, "b": b,
 				"exact": !edited && !cf.byid && !cf.hash && !cf.noscan && cf.reuse == "none"})
+			// the same tree marshalled behind a prefix into a buffer without room: it has to grow while the children are written
+			st2, b2 := func() (st string, b B) {
+				defer func() {
+					if e := recover(); e != nil {
+						st, b = "panic:"+fmt.Sprint(e), B{}
+					}
+				}()
+				buf := append(make([]byte, 0, 3), 1, 2, 3)
+				if err := root.MarshalIntoBuffer(&buf, opts); err != nil {
+					return "err", B{}
+				}
+				if len(buf) < 3 || buf[0] != 1 || buf[1] != 2 || buf[2] != 3 {
+					return "prefix-clobbered", B{}
+				}
+				return "ok", B(buf[3:])
+			}()
+			c.out.Emit(map[string]interface{}{"ev": "Marshal", "st": st2, "b": b2, "into": true,
+				"exact": !edited && !cf.byid && !cf.hash && !cf.noscan && cf.reuse == "none"})
 		case "Get":
 			pn, st := nav(root, path, opts, false)
 			b := B{}
